@@ -110,7 +110,7 @@ CHECKS.update({
 CHECKS.update({
     "C01": ("fault_enumeration",
             "crash-point enumeration over generated histories: LD_PRELOAD syscall trace -> file-system model -> every effect-log prefix x failure model, recovered by the real strict recovery and compared with the reference model",
-            "Each generated history (writes, batch deletes, metadata updates, manual snapshots, clean restarts; snapshot interval x rotation x capacity x 4 fsync policies) runs once under the syscall tracer; EVERY prefix of its file-system effect log and torn prefixes (1, half, len-1 bytes) of every write is a crash point; each is materialised under process kill and, for fsync-every-write policies, under power loss (drop all unsynced + 2 seeded in-order prefix choices per file/directory) and recovered with the real strict recover: start-up must succeed and the dump must equal model(acknowledged) or model(acknowledged + in-flight). One state in eight is crashed again at every effect of its own recovery. 3,000 histories / ~875k crash states in the quick tier; complete over the crash points of each generated history. Part server_kill: the real kyrodb_server is SIGKILLed after a generated number of acknowledgements plus 0-3000 us while a client streams inserts / deletes / batch deletes and records every acknowledgement (fsync policy x snapshot interval x rotation); optional second SIGKILL 1-30 ms into the restart; strict start-up must succeed and the census must equal the acknowledged operations, optionally plus the one in flight (400 kills in the quick tier).",
+            "Each generated history (writes, batch deletes, metadata updates, manual snapshots, clean restarts; snapshot interval x rotation x capacity x 4 fsync policies) runs once under the syscall tracer; EVERY prefix of its file-system effect log and torn prefixes (1, half, len-1 bytes) of every write is a crash point; each is materialised under process kill and, for fsync-every-write policies, under power loss (drop all unsynced + 2 seeded in-order prefix choices per file/directory) and recovered with the real strict recover: start-up must succeed and the dump must equal model(acknowledged) or model(acknowledged + in-flight). One state in eight is crashed again at every effect of its own recovery. 3,000 histories / ~930k crash states in the quick tier; under Periodic(1 h) HnswBackend::sync_wal() is called after about half of the operations and the state right after each completed call is additionally judged under power loss against all acknowledged operations (the periodic clause at engine level); complete over the crash points of each generated history. Part server_kill: the real kyrodb_server is SIGKILLed after a generated number of acknowledgements plus 0-3000 us while a client streams inserts / deletes / batch deletes and records every acknowledgement (fsync policy x snapshot interval x rotation); optional second SIGKILL 1-30 ms into the restart; strict start-up must succeed and the census must equal the acknowledged operations, optionally plus the one in flight (400 kills in the quick tier).",
             "Trusts the syscall shim to see every file-system effect (open/write/fsync/fdatasync/rename/unlink/truncate families are interposed) and the flat-directory file-system model. Power-loss model exactly as written in the property. Crash points before the database's initial creation finished are not explored. One listed known finding (C01-F3, partial batch delete) is counted and skipped.",
             "DESIGN.md §3 C01, §2.4"),
     "C03": ("fault_enumeration",
